@@ -201,3 +201,4 @@ def run(facts, rep, ctx):
     from . import round5
     if ctx.get('flavor') != 'nochk':
         round5.po10(facts, rep)
+    round5.pq1(facts, rep)
